@@ -164,6 +164,16 @@ class Runner:
                 self.obj = SP.open(self.path)
                 self.expect_open = True
                 return _ok()
+            if name == "recreate":
+                # release() gives the array's files up (it needs a live object: a closed one is opened first), then a
+                # new array of the same geometry is created under the same path
+                if not self.expect_open:
+                    self.obj = SP.open(self.path)
+                self.obj.release()
+                self.obj = SP.create(self.path, item_size=self.par["isz"], array_len=self.par["n"],
+                                     item_num_in_one_file=self.par["pf"])
+                self.expect_open = True
+                return _ok()
             a = self.obj
             if name == "get":
                 r = _items([a[o["i"]]])
@@ -273,7 +283,7 @@ def finishing_ops(ops):
     for o in ops:
         if o["op"] == "close":
             is_open = False
-        elif o["op"] == "reopen":
+        elif o["op"] in ("reopen", "recreate"):
             is_open = True
     return ([op("close")] if is_open else []) + [op("reopen")]
 
@@ -438,7 +448,7 @@ def rand_history(rnd, length=40):
         return good()
 
     kinds = ["get"] * 6 + ["set"] * 8 + ["getslice"] * 4 + ["setslice"] * 8 + ["del"] * 3 + ["delslice"] * 2 + \
-            ["clear", "iter", "len"] + ["contains"] * 2 + ["close"] * 3
+            ["clear", "iter", "len"] + ["contains"] * 2 + ["close"] * 3 + ["recreate"]
     ops = []
     is_open = True
     while len(ops) < length:
@@ -468,6 +478,8 @@ def rand_history(rnd, length=40):
             ops.append(op(k))
             if k == "close":
                 is_open = False
+            elif k == "recreate":
+                is_open = True
     return par, ops
 
 
